@@ -416,6 +416,18 @@ func c27CoqObs(o *c27Obs) string {
 		cqListOf(o.Reported, func(x int64) string { return cqZ(x) }))
 }
 
+// two segments of one run got the same start time, hence the same file name: the later one truncated the earlier one
+func c27Collides(paths []string) bool {
+	seen := map[string]bool{}
+	for _, p := range paths {
+		if seen[p] {
+			return true
+		}
+		seen[p] = true
+	}
+	return false
+}
+
 func c27SegClass(s *c27Stream, o *c27Obs) string {
 	cl := s.Kind
 	late, errs := 0, 0
@@ -432,6 +444,9 @@ func c27SegClass(s *c27Stream, o *c27Obs) string {
 	}
 	if errs > 0 {
 		cl += "+error"
+	}
+	if c27Collides(o.Created) {
+		cl += "+name-collision"
 	}
 	switch n := len(o.Segs); {
 	case n == 0:
@@ -458,6 +473,7 @@ func c27SegCases(t *testing.T, out *vOut, rnd *vRand, root string, n int) {
 			nparts += len(g.Parts)
 		}
 		out.Case(cqApp("CSeg", c27CoqStream(s), c27CoqObs(obs)),
-			map[string]any{"stream": s, "observed": obs}, "segmenter: "+c27SegClass(s, obs), nparts > 1)
+			map[string]any{"stream": s, "observed": obs, "name_collision": c27Collides(obs.Created)},
+			"segmenter: "+c27SegClass(s, obs), nparts > 1)
 	}
 }
